@@ -23,9 +23,23 @@ Example ex_ramp :
   end = [1000; 2000; 3000; 6000; 10000].
 Proof. vm_compute. reflexivity. Qed.
 
-(* supplied start inside the ceiling satisfies start_ok *)
-Example ex_premises_supplied : ff_premises 500 10 253 (Some 400).
+(* a supplied start ABOVE the ceiling satisfies the premises too (it is capped):
+   the former refutation witness 500 / 10 / Some 1000 now starts at 500 *)
+Example ex_premises_supplied : ff_premises 500 10 253 (Some 1000).
 Proof. unfold ff_premises, start_ok, RMAX, WMAX. lia. Qed.
+
+Example ex_clamped :
+  match new_ff64 500 2 253 (EstOk 253) (Some 1000) with
+  | Ok f0 => [ff_cur f0; ff_delta f0; ff_cur (fstep64 f0 FInc)]
+  | Err _ => []
+  end = [500; 0; 500].
+Proof. vm_compute. reflexivity. Qed.
+
+(* with width <> 1 the capped start has delta 0: ErrZeroFeeRateDelta, as on the
+   estimator path *)
+Example ex_clamped_zero_delta :
+  new_ff64 500 10 253 (EstOk 253) (Some 1000) = Err ErrZeroFeeRateDelta.
+Proof. vm_compute. reflexivity. Qed.
 
 (* publisher: budget 20000 sat over 1000 wu, MaxFeeRate 250000; the mempool
    first asks for more fee, then accepts; three blocks follow *)
@@ -40,10 +54,9 @@ Proof. vm_compute. reflexivity. Qed.
 
 Example ex_pub_premises :
   0 <= 20000 <= BMAX /\ 1 <= 1000 < WMAX /\ 0 <= 250000 <= RMAX /\
-  start_ok (max_fee_rate_allowed64 20000 1000 250000) 253 None.
+  start_ok 253 None.
 Proof.
-  assert (E : max_fee_rate_allowed64 20000 1000 250000 = 20000) by (vm_compute; reflexivity).
-  rewrite E. unfold BMAX, WMAX, RMAX, start_ok. lia.
+  unfold BMAX, WMAX, RMAX, start_ok. lia.
 Qed.
 
 (* the dust branch: change below the floor goes to the fee, no change output *)
